@@ -2,6 +2,7 @@
 //   c13-cases <cases.ndjson> <out.ndjson>   TLC-enumerated setter histories on a created shape in six versions
 //   c13-limits <out.ndjson>                 limit meshes (1, 2, 65534, 65535 vertices; triangle limits) create + reload
 #include "mesh.hpp"
+#include <set>
 
 using namespace nifly;
 using namespace vh;
@@ -20,15 +21,52 @@ std::string cidList(const std::vector<T>& v, ContentIds& ids) {
 }
 float sgn(size_t bits, int k) { return ((bits >> k) & 1) ? 1.0f : -1.0f; }
 
-void history(const JV& h, size_t k, const char* ver, std::string& out) {
+// reopened: the history runs on the model as loaded from a file the library wrote (it then owns whatever blocks and cached
+// data a save creates), not on the freshly created one
+void history(const JV& h, size_t k, const char* ver, bool reopened, std::string& out) {
 	NifFile nif;
 	nif.Create(versionByName(ver));
 	std::vector<Triangle> tris = {Triangle(0, 1, 2), Triangle(0, 2, 3)};
 	NiShape* shape = buildShape(nif, "S", 4, tris, true);
 	if (!shape) return;
+	if (reopened) {
+		std::string bytes = saveToString(nif, true, true);
+		if (loadFromString(nif, bytes) != 0) return;
+		shape = byName(nif, "S");
+		if (!shape) return;
+	}
 	bool bs = dynamic_cast<BSTriShape*>(shape) != nullptr;
 	ContentIds ids;
 	size_t step = 0;
+	std::set<std::string> written; // per-vertex arrays given through the API so far (their values are exact in every format)
+	written.insert("verts");
+	auto reloadCheck = [&](const std::string& cjs) -> bool {
+		struct { std::string s; std::string done() { return s; } } cj{cjs};
+		std::string t = projectShape(nif, shape, ids);
+		NifFile copy(nif);
+		NifFile re;
+		if (loadFromString(re, saveToString(copy, true, true)) != 0) return false;
+		NiShape* rs = byName(re, "S");
+		if (!rs) return false;
+		// the first reload brings every value to the storage precision of the format: compare from the second on
+		std::string r1 = projectShape(re, rs, ids);
+		NifFile re2;
+		NifFile copy2(re);
+		if (loadFromString(re2, saveToString(copy2, true, true)) != 0) return false;
+		NiShape* rs2 = byName(re2, "S");
+		if (!rs2) return false;
+		JObj ev;
+		ev.add("e", "reloadsame").raw("case", cj.done()).raw("t", r1).raw("r", projectShape(re2, rs2, ids));
+		out += ev.done() + "\n";
+		// what was written through the API is what the reloaded file gives back (the values used are exact in every
+		// format's storage precision)
+		JObj ev0;
+		JArr wr;
+		for (auto& w : written) wr.add(w);
+		ev0.add("e", "reloadfirst").raw("case", cj.done()).raw("written", wr.done()).raw("t", t).raw("r", r1);
+		out += ev0.done() + "\n";
+		return true;
+	};
 	for (auto& opv : h.a) {
 		shape = byName(nif, "S");
 		if (!shape) return;
@@ -36,28 +74,15 @@ void history(const JV& h, size_t k, const char* ver, std::string& out) {
 		size_t v = (size_t) opv["v"].n;
 		size_t nv = shape->GetNumVertices();
 		JObj cj;
-		cj.add("case", (long long) k).add("ver", ver).add("step", (long long) step++);
+		cj.add("case", (long long) k).add("ver", ver).add("step", (long long) step++).add("reopened", reopened);
 		if (op == "reload") {
-			std::string t = projectShape(nif, shape, ids);
-			NifFile copy(nif);
-			NifFile re;
-			if (loadFromString(re, saveToString(copy, true, true)) != 0) return;
-			NiShape* rs = byName(re, "S");
-			if (!rs) return;
-			// the first reload brings every value to the storage precision of the format: compare from the second on
-			std::string r1 = projectShape(re, rs, ids);
-			NifFile re2;
-			NifFile copy2(re);
-			if (loadFromString(re2, saveToString(copy2, true, true)) != 0) return;
-			NiShape* rs2 = byName(re2, "S");
-			if (!rs2) return;
-			JObj ev;
-			ev.add("e", "reloadsame").raw("case", cj.done()).raw("t", r1).raw("r", projectShape(re2, rs2, ids));
-			out += ev.done() + "\n";
-			(void) t;
+			if (!reloadCheck(cj.done())) return;
 			continue;
 		}
 		if (op == "eye" && !bs) continue;
+		if (op == "vertsN") written.clear();
+		if (op == "verts" || op == "vertsN") written.insert("verts");
+		else if (op != "tris") written.insert(op);
 		std::string s = projectShape(nif, shape, ids);
 		std::string given;
 		std::string attr = op;
@@ -133,6 +158,13 @@ void history(const JV& h, size_t k, const char* ver, std::string& out) {
 		ev.add("e", "setget").raw("case", cj.done()).add("attr", attr).raw("given", given).raw("s", s).raw("t", t);
 		out += ev.done() + "\n";
 	}
+	// every history ends with a save and reload
+	shape = byName(nif, "S");
+	if (shape && !h.a.empty() && h.a.back()["op"].s != "reload") {
+		JObj cj;
+		cj.add("case", (long long) k).add("ver", ver).add("step", (long long) step).add("reopened", reopened).add("final", true);
+		reloadCheck(cj.done());
+	}
 }
 
 int cmdCases(int argc, char** argv) {
@@ -146,7 +178,8 @@ int cmdCases(int argc, char** argv) {
 		[&](size_t ci, std::string& out) {
 			for (size_t k = ci * chunk; k < std::min(lines.size(), (ci + 1) * chunk); k++) {
 				JV rec = jparse(lines[k]);
-				for (const char* ver : {"OB", "FO3", "SK", "SSE", "FO4", "FO76"}) history(rec["c"]["h"], k, ver, out);
+				for (const char* ver : {"OB", "FO3", "SK", "SSE", "FO4", "FO76"})
+					for (bool reopened : {false, true}) history(rec["c"]["h"], k, ver, reopened, out);
 			}
 		},
 		[&](size_t ci, const std::string& why, FILE* out) { fprintf(out, "{\"e\":\"crash\",\"chunk\":%zu,\"why\":%s}\n", ci, J::str(why).s.c_str()); });
